@@ -10,9 +10,11 @@ import (
 	"path/filepath"
 	"reflect"
 	"runtime"
+	"runtime/debug"
 	"sort"
 	"strconv"
 	"strings"
+	"time"
 
 	"github.com/streamingfast/dstore"
 	"github.com/streamingfast/substreams"
@@ -193,6 +195,7 @@ type jobStart struct {
 	Unit    stage.Unit
 	Missing []string // full-kv snapshots at the job's start block that tier2 would have to load and that do not exist
 	StateKO []string // lower-stage units of the previous segment that are neither Completed nor NoOp
+	Shift   bool     // the unit's stage position differs from the stage's index in the graph (what tier2 is told)
 	Step    int
 }
 
@@ -483,10 +486,26 @@ func (f *fakeWorker) ID() string { return strconv.Itoa(f.id) }
 // "job start => dependencies complete" predicate is evaluated on the real files and the real unit states.
 func (f *fakeWorker) Work(ctx context.Context, unit stage.Unit, startBlock uint64, moduleNames []string, upstream *response.Stream) loop.Cmd {
 	w := f.w
+	// the scheduler hands the worker the stage's index in the module graph (GraphUnit); the position of the stage in
+	// Stages.stages is what the unit-state matrix is indexed by
+	pos := -1
+	for p := 0; p < w.sched.Stages.VerifStageCount(); p++ {
+		if w.sched.Stages.VerifStageIdx(p) == unit.Stage &&
+			w.sched.Stages.VerifUnitState(stage.Unit{Segment: unit.Segment, Stage: p}) == stage.UnitScheduled {
+			pos = p
+			break
+		}
+	}
+	graphUnit := unit
+	shift := pos < 0
+	if shift {
+		pos = unit.Stage // the unit is not the graph unit of any Scheduled cell: it was passed positionally
+	}
+	unit = stage.Unit{Segment: unit.Segment, Stage: pos}
 	js := jobStart{Unit: unit, Step: w.steps}
 	seg := startBlock / w.g.K // what work.NewRequest computes
 	start := seg * w.g.K
-	t := w.tier2Stage(unit.Stage)
+	t := graphUnit.Stage // what work.NewRequest puts in the tier2 request
 	for j := 0; j < t && j < len(w.stages); j++ {
 		if w.kinds[j] != 'S' {
 			continue
@@ -503,16 +522,13 @@ func (f *fakeWorker) Work(ctx context.Context, unit stage.Unit, startBlock uint6
 			js.StateKO = append(js.StateKO, fmt.Sprintf("(%d,%d)=%s", unit.Segment-1, j, st))
 		}
 	}
+	js.Shift = shift
 	w.jobStarts = append(w.jobStarts, js)
 	return func() loop.Msg {
 		w.runJob(t, seg)
-		return work.MsgJobSucceeded{Unit: unit, Worker: f}
+		return work.MsgJobSucceeded{Unit: graphUnit, Worker: f}
 	}
 }
-
-// tier2Stage: the stage number the real RemoteWorker puts in the tier2 request is unit.Stage (the position in
-// Stages.stages); tier2 interprets it as an index in the graph's staged modules.
-func (w *world) tier2Stage(pos int) int { return pos }
 
 // runJob leaves the files a real tier2 job for (graph stage t, segment seg) leaves (service.GetExecutionPlan,
 // pipeline.setupSubrequestStores, Stores.saveStoresSnapshots): for every store used up to stage t that has
@@ -634,6 +650,7 @@ func (w *world) step(idx int, elapsed bool) (kind string) {
 		msg = work.MsgScheduleNextJob{}
 		kind = "tick"
 	} else {
+		n0 := runtime.NumGoroutine()
 		func() {
 			defer func() {
 				if r := recover(); r != nil {
@@ -643,6 +660,13 @@ func (w *world) step(idx int, elapsed bool) (kind string) {
 			}()
 			msg = c()
 		}()
+		if tag == "G" {
+			// getPartialOrFullKV returns at the first successful load and leaves the other goroutine running; it
+			// may still write StoreModuleState afterwards: let it finish so that the run is reproducible
+			for i := 0; i < 2000 && runtime.NumGoroutine() > n0; i++ {
+				time.Sleep(10 * time.Microsecond)
+			}
+		}
 		if w.ended != "" {
 			return "exec" + tag + "!panic"
 		}
@@ -670,7 +694,8 @@ func (w *world) step(idx int, elapsed bool) (kind string) {
 		}
 		return w.ended
 	case work.MsgJobSucceeded:
-		kind += fmt.Sprintf("jobOK(%d,%d)", m.Unit.Segment, m.Unit.Stage)
+		pu := w.sched.Stages.PositionalUnit(m.Unit) // the worker reports the graph unit; Update translates it back
+		kind += fmt.Sprintf("jobOK(%d,%d)", pu.Segment, pu.Stage)
 	case work.MsgScheduleNextJob:
 		kind += "schedNext"
 		if elapsed {
@@ -708,6 +733,9 @@ func (w *world) step(idx int, elapsed bool) (kind string) {
 			if r := recover(); r != nil {
 				w.ended = "panic"
 				w.panicMsg = fmt.Sprint(r)
+				if os.Getenv("VH_C05_DEBUG") != "" {
+					fmt.Fprintf(os.Stderr, "panic in Update: %v\n%s\n", r, debug.Stack())
+				}
 			}
 		}()
 		out = w.sched.Update(msg)
